@@ -774,7 +774,34 @@ def g_ms_decode(R, rng, n):
                 return
 
 
+def g_matrix(R, rng, n):
+    """every class's valid encodings / documents and n hostile-but-mostly-accepted mutations of them, each accepted object
+    through the WHOLE consumer matrix (c19_matrix) besides its own methods"""
+    part = getattr(rng, "seed_value", 0) & 3
+    jobs = [("parse", name) for name in sorted(S.CLASS_BIN)] + [("from_dict", name) for name in sorted(S.CLASS_JSON)]
+    per = max(2, n // max(1, len(jobs) // 4))
+    for k, (method, name) in enumerate(jobs):
+        if k % 4 != part:
+            continue
+        ep, fn = _class_ep(name, method)
+        seeds = (S.CLASS_BIN if method == "parse" else S.CLASS_JSON)[name]
+        params = inspect.signature(fn).parameters
+        for j in range(min(len(seeds), 6) + per):
+            x, kw = seeds[j] if j < min(len(seeds), 6) else rng.choice(seeds)
+            kwargs = dict(kw)
+            if "rsizes" in kwargs:
+                kwargs["rsizes"] = L(kwargs["rsizes"])
+            if "block_hash" in kwargs and not isinstance(kwargs["block_hash"], (str, dict)):
+                kwargs["block_hash"] = B(kwargs["block_hash"])
+            if j >= min(len(seeds), 6):
+                x = G.mutate_bytes(rng, x, [s for s, _ in seeds]) if method == "parse" else G.mutate_json(rng, x)
+                if "check_validity" in params and method == "parse" and rng.random() < 0.5:
+                    kwargs["check_validity"] = False
+            C.call_spec(R, "matrix", ep, [B(x) if method == "parse" else G.json_spec(x)], kwargs, fn=fn)
+
+
 GROUPS = {
+    "matrix": g_matrix,
     "binary": g_binary_classes, "binfunc": g_binary_funcs, "text": g_text, "json": g_json, "jsonfunc": g_json_funcs,
     "pred": g_pred, "generic": g_generic, "deep": g_deep, "psbtdegenerate": g_psbt_degenerate, "msdecode": g_ms_decode, "coreimport": g_core_import, "textcodec": g_textcodec, "witness": g_witness_consumers,
 }
